@@ -355,3 +355,13 @@ def c46(ctx):
                 "of a box that dominates every minimal solution, minimal under the componentwise order) and demands "
                 "that homogeneous_lde returns exactly that set, every vector once")
     simple(ctx, "MC_C46", "Trace_C46", floor=0.9)
+
+
+@plan("C32")
+def c32(ctx):
+    ctx.rule = ("TLC enumerates n in 0..130 and selected larger n for 31 one-argument functions, all pairs in -12..12 "
+                "(plus larger samples) for 19 two-argument functions, and seeded (a, n, m, r/s) tuples for modular "
+                "roots, rational modular powers and CRT; TLC validates every recorded result against the definition "
+                "written in module NT (brute force: divisors, Euclid-free gcd, residues by enumeration, symbols by "
+                "factorisation, recurrences over exact rationals)")
+    simple(ctx, "MC_C32", "Trace_C32", floor=0.9)
